@@ -610,6 +610,34 @@ func runC(t *rapid.T) *machC {
 				}
 				parent = b
 			}
+			// right after the reorganization: look up everything that left the chain
+			// or spends from something that left it
+			m.op = "lookup-after-reorg"
+			for _, h := range append([]common.Uint256{}, m.txOrder...) {
+				if m.dead {
+					return
+				}
+				tx := m.txs[h].tx
+				if tx.IsCoinBaseTx() {
+					continue
+				}
+				_, act := m.active[h]
+				orphaned := false
+				for _, in := range tx.Inputs() {
+					if _, pa := m.active[in.Previous.TxID]; !pa {
+						orphaned = true
+					}
+				}
+				if orphaned {
+					m.probeRef(tx, "spends from a detached transaction")
+				}
+				if !act && !m.dead {
+					m.probeTx(h)
+					if !m.dead {
+						m.probeFetch(h)
+					}
+				}
+			}
 		},
 		"probeRef": func(t *rapid.T) {
 			m.op = "lookup"
